@@ -434,6 +434,60 @@ func TestC08(t *testing.T) {
 	names := builtinList()
 	rec.Extra("builtins", len(names))
 
+	// (E) bounded-exhaustive: every index / slice / getpath form with boundary
+	// keys, in every path-consuming context, on inputs of every type
+	keys := []string{"null", "true", "false", "0", "1", "-1", "1.5", "-0.5", "nan", "infinite", "-infinite", "\"\"", "\"a\"", "[]", "[0]", "[\"a\"]", "{}", "{\"start\":0,\"end\":1}", "{\"start\":null}", "1e1000", "9223372036854775808", "(null,0)", "empty", "$v", "[null]"}
+	forms := []string{".[%k]", ".a[%k]", ".[%k][%l]", ".[%k:%l]", ".[%k:]", ".[:%k]", "getpath([%k])", "getpath([\"a\",%k])", "getpath([%k,%l])", ".[]?[%k]", ".[%k]?", "_index(.; %k)", "_slice(.; %k; %l)", "has(%k)", "(.[%k] // .[%l])", ".. | .[%k]?"}
+	ctxs := []string{"%f", "path(%f)", "[paths] | length, (%f)", "del(%f)", "(%f) = 1", "(%f) |= 2", "(%f) += 1", "[path(%f)?]", "try path(%f) catch .", "pick(%f)", "to_entries? | (%f)", "[tostream] | (%f)", "delpaths([path(%f)])", "(%f) //= 3", "[limit(2; path(%f))]", "first(%f)", "label $o | path(%f | ., break $o)", "reduce path(%f) as $p (.; setpath($p; 0))", "map_values(%f)?", "walk(%f)?"}
+	einputs := []any{nil, true, 0, "", "ab", []any{}, []any{1, []any{2}}, map[string]any{}, map[string]any{"a": []any{1}, "": nil}, []any{nil, map[string]any{"a": nil}}}
+	ecount := 0
+	ecomplete := true
+	for fi, f := range forms {
+		for ki, k := range keys {
+			ls := []string{"null"}
+			if strings.Contains(f, "%l") {
+				ls = keys
+			}
+			for li, l := range ls {
+				if !rec.Thorough() && strings.Contains(f, "%l") && (ki+li+fi)%5 != 0 {
+					continue // quick: a fifth of the two-key products
+				}
+				form := strings.ReplaceAll(strings.ReplaceAll(f, "%k", k), "%l", l)
+				for ci, cx := range ctxs {
+					ecount++
+					if !rec.Mine(ecount) {
+						continue
+					}
+					src := strings.ReplaceAll(cx, "%f", form)
+					ins := einputs
+					if !rec.Thorough() {
+						ins = []any{einputs[(ecount+ci)%len(einputs)], einputs[(ecount/3)%len(einputs)], nil}
+					}
+					for _, in := range ins {
+						c := mkLib(src, in, nil)
+						rec.Eval()
+						rec.Journal("index-forms", c)
+						o := check(c)
+						if o.discard != "" {
+							rec.Discard(o.discard)
+							continue
+						}
+						rec.Class("index-forms/" + o.stage)
+						rec.NT("index-forms\x00" + src + "\x00" + univ.Show(in))
+						if o.msg != "" {
+							rec.Direct("index-forms", c, "%s", o.msg)
+							ecomplete = false
+							if rec.Violations() > 10 {
+								t.Fatalf("too many violations")
+							}
+						}
+					}
+				}
+			}
+		}
+	}
+	rec.Exhaustive(fmt.Sprintf("index/slice/getpath forms (%d) x boundary keys (%d) x path contexts (%d)", len(forms), len(keys), len(ctxs)), ecomplete && rec.Thorough())
+
 	// (i) byte-level mutations of the corpus queries
 	rec.Rapid(t, "mutated", rec.Scale(150000, 6000000), func(t *rapid.T) {
 		src := mutate(t, rapid.SampledFrom(qs).Draw(t, "query"))
